@@ -586,6 +586,9 @@ void familyGroup(const std::string &tag, int nRules, const std::vector<int> &alp
 void body(V::Ctx &ctx)
 {
     Mem::Init();
+    // squid.conf default "configuration_includes_quoted_values off" (default_all() sets both before parsing starts)
+    ConfigParser::RecognizeQuotedValues = false;
+    ConfigParser::StrictMode = false;
     Acl::RegisterMaker("vleaf", [](Acl::TypeName)->Acl::Node* { return new Leaf; });
     Acl::RegisterMaker("all-of", [](Acl::TypeName)->Acl::Node* { return new Acl::AllOf; });    // as in Acl::Init() (src/AclRegs.cc)
     Acl::RegisterMaker("any-of", [](Acl::TypeName)->Acl::Node* { return new Acl::AnyOf; });
